@@ -140,6 +140,10 @@ class Gen:
     def tick(self):
         self.ops.append("t")
 
+    def block(self, i, b):
+        if i in self.used:
+            self.ops.append("w%d:%s" % (i, "0" if b else "inf"))
+
 
 def gen_provider_sweep(r, size, priv):
     g = Gen(r, size)
@@ -229,6 +233,52 @@ def gen_pex(r, size, priv):
     return g.ops
 
 
+def gen_budget(r, size, priv):
+    """blocked writes (send budget 0 / unlimited) around requests, handshakes and ticks"""
+    g = Gen(r, size)
+    np_ = r.choice([1, 1, 2])
+    for i in range(np_):
+        g.connect(i)
+        f = ["m" + str(r.choice([1, 2, 3, 3, 7]))]
+        if r.random() < 0.7:
+            f.append("x" + r.choice(["0", "1", "2", "256"]))
+        if r.random() < 0.6:
+            f.append("p" + str(r.randrange(1, 65536)))
+        g.batch(i, ["H" + ",".join(f)])
+    if r.random() < 0.3:
+        g.tick()
+    blocked = set()
+    sent = {i: 0 for i in range(np_)}
+    for _ in range(r.randrange(3, 12)):
+        i = r.randrange(np_)
+        c = r.random()
+        if c < 0.2:
+            g.block(i, True)
+            blocked.add(i)
+        elif c < 0.4:
+            g.block(i, False)
+            blocked.discard(i)
+        elif c < 0.8:
+            k = r.choice([1, 1, 1, 2, 3])
+            if sent[i] + k > 8:
+                continue
+            sent[i] += k
+            items = []
+            for _ in range(k):
+                items.append("M2.0." + rand_piece(r, size) if r.random() < 0.85 else rand_hs(r, size))
+            g.batch(i, items)
+        elif c < 0.95:
+            g.tick()
+            sent = {j: 0 for j in sent}
+        else:
+            g.batch(i, [rand_hs(r, size)])
+    for i in sorted(blocked):
+        g.block(i, False)
+    if r.random() < 0.6:
+        g.tick()
+    return g.ops
+
+
 def gen_malformed(r, size, priv):
     g = Gen(r, size)
     g.connect(0)
@@ -265,6 +315,15 @@ HAND = [
     (81920, True, 40, "c0 b0:Hm1 b0:M2.0.4 b0:M2.0.5"),
     (300, False, 40, "c0 b0:Hm1,p258 b0:M2.0.0 b0:M2.0.1 t c1 b1:Hx1,p513 t b0:Hp1 t t"),
     (16385, False, 1, "c0 b0:Hx1,p9 t c1 b1:Hx1,p8 t t d0 d1 t t c2 b2:Hx3 t"),
+    # repaired tree: three requests in one segment (the third waits in the protocol buffer)
+    (300, True, 40, "c0 b0:Hm3 b0:M2.0.0/M2.0.0/M2.0.0 t"),
+    # in flight + pending + waiting: up_extension's read_done cannot proceed
+    (300, True, 40, "c0 b0:Hm3 w0:0 b0:M2.0.0 b0:M2.0.0 b0:M2.0.0 w0:inf"),
+    # PEX_DO with ut_pex id 0 while a write is in flight: send_pex_message returns true without writing
+    (300, False, 40, "c0 b0:Hm3,x0 w0:0 b0:M2.0.0 b0:M2.0.0 t w0:inf b0:M2.0.0 t"),
+    (300, False, 40, "c0 b0:Hm3,x1,p7000 t w0:0 c1 b1:Hx2,p5 t t w0:inf t d1 t"),
+    (300, False, 40, "c0 b0:Hm3 w0:0 b0:M2.0.0 b0:Hm0 w0:inf b0:M2.0.0 b0:Hm4 b0:M2.0.0"),
+    (300, False, 40, "c0 b0:Hm3 w0:0 b0:M2.0.0 b0:M2.0.0/Hm0 w0:inf b0:Hm5 b0:M2.0.0"),
 ]
 
 
@@ -285,7 +344,7 @@ def exhaustive_small(seed):
 
 def gen(seed, tier):
     r = random.Random(seed)
-    cases, stats = [], {"corpus": 0, "hand": 0, "sweep": 0, "burst": 0, "ids": 0, "pex": 0, "malformed": 0, "exhaustive": 0,
+    cases, stats = [], {"corpus": 0, "hand": 0, "sweep": 0, "burst": 0, "ids": 0, "pex": 0, "budget": 0, "malformed": 0, "exhaustive": 0,
                         "sizes_mod_16k": {"-1": 0, "0": 0, "+1": 0, "other": 0}, "private": 0}
     cdir = os.path.join(os.path.dirname(os.path.dirname(os.path.abspath(__file__))), "corpus", "C20")
     for f in sorted(glob.glob(os.path.join(cdir, "*.case"))):
@@ -311,6 +370,7 @@ def gen(seed, tier):
 
     plan = [("sweep", gen_provider_sweep, 60 if not big else 200), ("burst", gen_burst, 70 if not big else 300),
             ("ids", gen_ids, 90 if not big else 400), ("pex", gen_pex, 130 if not big else 600),
+            ("budget", gen_budget, 110 if not big else 500),
             ("malformed", gen_malformed, 40 if not big else 150)]
     # every boundary size once with a full sweep
     for k in range(1, kmax + 1):
@@ -362,7 +422,9 @@ def _fields(s):
 def oracle(case, impl):
     """returns a list of (class token, text) — empty when the property holds on this output"""
     viol = []
-    if impl.startswith("CRASH") or "ERR:" in impl or impl in ("BADCASE", "MISSING"):
+    if "ERR:internal" in impl:
+        viol.append(("up-extension-internal-error", "an internal_error escaped the library's event loop (the client would abort) after: %s" % impl[-200:]))
+    elif impl.startswith("CRASH") or "ERR:" in impl or impl in ("BADCASE", "MISSING"):
         if impl != "BADCASE":
             viol.append(("crash", "implementation outcome %s" % impl[:120]))
         return viol
@@ -372,17 +434,24 @@ def oracle(case, impl):
     adv = {}       # peer -> {"m": int or None, "x": int or None}
     segs = impl.split(" ; ")
     prev_conn = {}
+    hist_ids, hist_conn, valid_ports = {}, {}, {}
     for seg in segs:
         opname = seg.split(" => ")[0].strip()
         evs, _, snap = seg.partition("#")
-        # what the peer advertised (all handshakes of the batch are sent before the reply is written)
-        cand = {}      # peer -> ids that were current at some moment of this op (reply may be written at any of them)
+        # A message is framed (id, content) when write_prepare_extension runs; while the peer does not
+        # accept bytes it stays in flight (snapshot up=B). It is judged against everything the peer
+        # advertised / every connection state since the connection was last idle.
+        for j in range(NPEERS):
+            if prev_conn.get(j, {}).get("up", "I") == "I" or j not in hist_ids:
+                a0 = adv.get(j, {"m": None, "x": None})
+                hist_ids[j] = {"m": [a0["m"]], "x": [a0["x"]]}
+                hist_conn[j] = [prev_conn]
+        cand = hist_ids
         if opname.startswith("b"):
             i = int(opname[1])
             went_deaf = re.search(r"S%d\[[^\]]* rd=0 " % i, snap) is not None
             nreq = 0
             a = adv.setdefault(i, {"m": None, "x": None})
-            cand[i] = {"m": [a["m"]], "x": [a["x"]]}
             for item in opname[3:].split("/"):
                 if item.startswith("M2.0."):
                     nreq += 1
@@ -393,15 +462,29 @@ def oracle(case, impl):
                         if len(f) >= 2 and f[0] in "mx":
                             a[f[0]] = int(f[1:])
                             cand[i][f[0]].append(a[f[0]])
+                        if len(f) >= 2 and f[0] == "p" and 1 <= int(f[1:]) <= 65535:
+                            valid_ports.setdefault(i, {0}).add(int(f[1:]))
         if opname.startswith("c"):
             adv[int(opname[1])] = {"m": None, "x": None}
         conn = {}
         for m in SNAP_RE.finditer(snap):
             kv = dict(t.split("=", 1) for t in m.group(2).split() if "=" in t)
             conn[int(m.group(1))] = kv
-            if kv.get("rd") == "0" and kv.get("pend") == "0" and kv.get("wr") == "0":
+            if "lp" in kv and int(kv["lp"]) not in valid_ports.get(int(m.group(1)), {0}):
+                viol.append(("listen-port-truncated",
+                             "after '%s' the library holds listen port %s for peer %s, which the peer never advertised (a 'p' outside 1..65535 is truncated to 16 bits)" % (
+                                 opname, kv["lp"], m.group(1))))
+            idle = kv.get("pend") == "0" and kv.get("up", "I") == "I"
+            if kv.get("rd") == "0" and idle:
                 viol.append(("read-suspended-forever",
                              "after '%s' connection %s is out of the read set with nothing pending to write (peer left unread)" % (opname, m.group(1))))
+            elif int(kv.get("buf", "0")) > 0 and idle:
+                viol.append(("buffered-message-unread",
+                             "after '%s' connection %s holds %s bytes of complete unparsed messages in its protocol buffer with nothing pending; "
+                             "they are only parsed when the peer sends more bytes" % (opname, m.group(1), kv.get("buf"))))
+            if kv.get("pend") == "1" and kv.get("wr") == "0" and kv.get("up", "I") == "I":
+                viol.append(("pending-not-scheduled",
+                             "after '%s' connection %s has a reply pending but is not in the write set (nothing will write it before the next tick)" % (opname, m.group(1))))
         for m in EV_RE.finditer(evs):
             i = int(m.group(1))
             f = _fields(m.group(2))
@@ -456,14 +539,16 @@ def oracle(case, impl):
                             e = raw[k:k + 6]
                             idx = e[3] - 2
                             port = e[4] * 256 + e[5]
-                            now = conn.get(idx) or prev_conn.get(idx)
-                            good = e[:3] == b"\x7f\x00\x00" and now is not None and port != 0 and \
-                                (int(conn.get(idx, {}).get("lp", -1)) == port or int(prev_conn.get(idx, {}).get("lp", -1)) == port)
+                            snaps = [conn, prev_conn] + hist_conn.get(i, [])
+                            good = e[:3] == b"\x7f\x00\x00" and port != 0 and \
+                                any(int(sn.get(idx, {}).get("lp", -1)) == port for sn in snaps)
                             if not good:
                                 viol.append(("pex-added-not-connected",
                                              "after '%s' peer %d was told 'added' %s:%d which is not a currently connected peer with that listen port" % (
                                                  opname, i, ".".join(map(str, e[:4])), port)))
         prev_conn = conn
+        for j in hist_conn:
+            hist_conn[j].append(conn)
     # keep one report per class
     seen, out = set(), []
     for k, t in viol:
